@@ -173,18 +173,6 @@ class Evo:
         heavy = {f for f in (self.node_fn, self.numbr_fn) if f is not None}
         ex = self.ctx.explorer(inline=lambda f, st: f.cls is self.cls and f not in heavy, unroll=unroll,
                                max_paths=30000, opaque=heavy, **kw)
-        # lazily cached derived attributes: the rules analyse the cold computation (caches empty on entry); that the
-        # warm answer is the same is the coherence obligation reported by caches.report_incoherent
-        from . import caches
-        orig = ex.explore
-        ctx_, cls_ = self.ctx, self.cls
-
-        def explore(fn, args=None, heap=None):
-            h = dict(caches.cold_heap(ctx_, cls_, fn)) if fn.cls is cls_ else {}
-            if heap:
-                h.update(heap)
-            return orig(fn, args=args, heap=h or None)
-        ex.explore = explore
         return ex
 
     def density_field(self) -> str:
